@@ -53,8 +53,12 @@ def M(name):
 
 # ---------------------------------------------------------------- encoders
 def enc_unit(m):
+    try:
+        mem = list(m._mem_acl)                            # private attribute
+    except AttributeError:
+        mem = [c for c in m.capabilities if m.needs_mem(c)]     # the public view of the same information
     return [m.name, int(m.width), list(m.capabilities), bool(m.lock_info.rd_lock),
-            bool(m.lock_info.wr_lock), list(m._mem_acl)]
+            bool(m.lock_info.wr_lock), mem]
 
 
 def enc_funit(f):
@@ -175,7 +179,10 @@ def run_regq(reqs, ops):
     b = ra.RegAccQBuilder()
     for t, o in reqs:
         b.append(ty[t], _fresh(o))
-    q0 = enc_pyqueue(list(b._queue))                      # builder keeps registration order
+    try:
+        q0 = enc_pyqueue(list(b._queue))                  # builder keeps registration order (private attribute)
+    except (AttributeError, TypeError):
+        q0 = Sym("unavailable")
     q = b.create()
     outs = []
     dead = False
@@ -195,7 +202,11 @@ def run_regq(reqs, ops):
             except (KeyError, IndexError) as e:
                 outs.append(Sym(type(e).__name__))
                 dead = True
-    return [q0, outs, enc_pyqueue(list(reversed(q._queue)))]
+    try:
+        qf = enc_pyqueue(list(reversed(q._queue)))
+    except (AttributeError, TypeError):
+        qf = Sym("unavailable")
+    return [q0, outs, qf]
 
 
 # ---------------------------------------------------------------- parse / isa
@@ -318,12 +329,19 @@ def jsonish(x):
 def run_flow(units, edges, cap, outs, ins):
     """the bus-width analysis of processor_utils._checks._chk_cap_flow, step by step through its own helper
     functions, on a graph built like the loader's; returns the analysis graph after node splitting and
-    capacity distribution, the sink, the flow verdict per input port and the verdict of _chk_cap_flow"""
+    capacity distribution, the sink, the flow verdict per input port and the verdict of _chk_cap_flow.
+    The helpers are PRIVATE: when they are gone or take other arguments (a refactoring), the part that cannot
+    be observed is returned as Sym("unavailable") instead of failing -- the public loader stream still
+    decides the property."""
     import networkx
-    ck = M("processor_utils._checks")
-    cau = M("processor_utils.cap_anal_utils")
-    un = M("processor_utils.units")
-    exc = M("processor_utils.exception")
+    STRUCT = (AttributeError, TypeError, KeyError, NameError, ImportError, IndexError)
+    try:
+        ck = M("processor_utils._checks")
+        cau = M("processor_utils.cap_anal_utils")
+        un = M("processor_utils.units")
+        exc = M("processor_utils.exception")
+    except STRUCT:
+        return [Sym("unavailable")] * 5
 
     def build():
         g = networkx.DiGraph()
@@ -331,29 +349,35 @@ def run_flow(units, edges, cap, outs, ins):
             g.add_node(n, **{un.UNIT_WIDTH_KEY: w, un.UNIT_CAPS_KEY: list(caps)})
         g.add_edges_from(edges)
         return g
-    anal = ck._get_anal_graph(ck._make_cap_graph(build(), cap))
-    amap = {attrs[ck._OLD_NODE_KEY]: unit for unit, attrs in anal.nodes.items()}
-    unified = ck._aug_out_ports(anal, [amap[p] for p in outs])
-    unified = cau.split_nodes(anal)[unified]
-    ck._dist_edge_caps(anal)
-    nodes = [[str(n), int(anal.nodes[n][un.UNIT_WIDTH_KEY]), [str(s) for s in anal.successors(n)]] for n in anal]
-    caps = sorted([str(u), str(v), int(d["capacity"])] for u, v, d in anal.edges(data=True) if "capacity" in d)
-    flows = []
-    for p in ins:
-        try:
-            v = networkx.maximum_flow_value(anal, amap[p], unified)
-            r = "positive" if v else "zero"
-        except networkx.NetworkXUnbounded:
-            r = "unbounded"
-        except networkx.NetworkXError:
-            r = "error"
-        flows.append([p, Sym(r)])
+    try:
+        anal = ck._get_anal_graph(ck._make_cap_graph(build(), cap))
+        amap = {attrs[ck._OLD_NODE_KEY]: unit for unit, attrs in anal.nodes.items()}
+        unified = ck._aug_out_ports(anal, [amap[p] for p in outs])
+        unified = cau.split_nodes(anal)[unified]
+        ck._dist_edge_caps(anal)
+        nodes = [[str(n), int(anal.nodes[n][un.UNIT_WIDTH_KEY]), [str(s) for s in anal.successors(n)]] for n in anal]
+        caps = sorted([str(u), str(v), int(d["capacity"])] for u, v, d in anal.edges(data=True) if "capacity" in d)
+        flows = []
+        for p in ins:
+            try:
+                v = networkx.maximum_flow_value(anal, amap[p], unified)
+                r = "positive" if v else "zero"
+            except networkx.NetworkXUnbounded:
+                r = "unbounded"
+            except networkx.NetworkXError:
+                r = "error"
+            flows.append([p, Sym(r)])
+        steps = [nodes, caps, str(unified), flows]
+    except STRUCT:
+        steps = [Sym("unavailable")] * 4
     try:
         ck._chk_cap_flow(ck._get_anal_graph(ck._make_cap_graph(build(), cap)), exc.ComponentInfo(cap, "Capability " + cap),
                          list(ins), list(outs), lambda port: "port " + port)
         verdict = Sym("ok")
     except exc.BlockedCapError as e:
         verdict = [Sym("blocked"), e.capability, e.port]
+    except STRUCT:
+        verdict = Sym("unavailable")
     except Exception as e:  # noqa: BLE001
         verdict = [Sym("crash"), type(e).__name__]
-    return [nodes, caps, str(unified), flows, verdict]
+    return steps + [verdict]
